@@ -426,6 +426,10 @@ class FitBase(FileIOMixin, object):
             self._init_cost_function(existing_behavior="replace")
             self._fitter.parameter_to_minimize = self._cost_function.name
             self._implicit_no_errors = False
+        elif self._cost_function_pointwise is not None:
+            # do_fit may have selected the pointwise version of the cost function (diagonal covariance matrix);
+            # the uncertainties have changed, so go back to the full cost function
+            self._fitter.parameter_to_minimize = self._cost_function.name
 
     def _set_data_as_model_ref(self):
         for _err in self._param_model.get_matching_errors({"relative": True}).values():
@@ -490,6 +494,12 @@ class FitBase(FileIOMixin, object):
             raise ValueError("Fit data and cost function are not compatible: %s" % _reason)
         self._set_new_parametric_model()
         self._param_model._on_error_change_callback = self._on_error_change
+        # the new data container may carry its own uncertainty sources (or none at all)
+        if self._data_container.has_errors:
+            self._on_error_change()
+        else:
+            for _error_name in self._BASIC_ERROR_NAMES:
+                self._nexus.get(_error_name).mark_for_update()
 
     @property
     def data_error(self):
@@ -903,6 +913,7 @@ class FitBase(FileIOMixin, object):
             )
         )
         self._fit_param_names_bad_default = self._fit_param_names_bad_default.difference(names)
+        self._nexus.get("parameter_constraints").mark_for_update()
 
     def add_parameter_constraint(self, name, value, uncertainty, relative=False):
         """Apply a simple gaussian constraint to a single fit parameter.
@@ -918,6 +929,7 @@ class FitBase(FileIOMixin, object):
             raise ValueError("Unknown parameter name: %s" % name) from _e
         self._fit_param_constraints.append(GaussianSimpleParameterConstraint(index=_index, value=value, uncertainty=uncertainty, relative=relative))
         self._fit_param_names_bad_default.discard(name)
+        self._nexus.get("parameter_constraints").mark_for_update()
 
     def get_matching_errors(self, matching_criteria=None, matching_type="equal"):
         """Return a list of uncertainty objects fulfilling the specified matching criteria.
